@@ -19,6 +19,7 @@ NAME = "C20"
 
 GEO = ("Point", "Line", "Plane", "Segment", "HalfLine", "ConvexPolygon", "ConvexPolyhedron")
 PAIR_Q = ("inter_f", "inter_m", "in", "distance", "angle", "parallel", "orthogonal", "eq")
+AUX_Q = ("aux_segment_from_points", "aux_points_in_a_line")  # public helpers of calc.aux_calc, operands: Points
 SELF_Q = ("hash", "repr", "length", "area", "volume", "volume_fn")
 
 
@@ -39,6 +40,8 @@ def _q(name):
         "area": lambda a: a.area(),
         "volume": lambda a: a.volume(),
         "volume_fn": lambda a: G.volume(a),
+        "aux_segment_from_points": lambda *pts: G.get_segment_from_point_list(list(pts)),
+        "aux_points_in_a_line": lambda *pts: G.points_in_a_line(list(pts)),
     }[name]
 
 
@@ -103,6 +106,36 @@ class GenModel(object):
         self.ops.append({"op": "BUILD", "id": i, "ctor": "private", "spec": spec, "args": []})
         self.ent[i] = {"t": t, "kind": "composite", "from": [], "mut": True}
         return i
+
+    def aux_query(self):
+        """three collinear shared Points (the middle one first, so that the helper
+        must extend the segment backwards from its first argument) -> aux helper"""
+        r = self.rng
+        a = self.near()
+        d = X.mul(F(r.choice([1, 1, 2]), 2), X.rnd_dir(r, 2))
+        ks = [F(0), F(r.choice([-2, -1, 1, 2])), F(r.choice([-3, 3, 4]))]
+        r.shuffle(ks)
+        ids = [self.leaf("P", X.add(a, X.mul(k, d))) for k in ks]
+        q = r.choice(AUX_Q)
+        op = {"op": "QUERY", "qid": self.nid("q"), "q": q, "a": ids[0], "b": ids[1], "c": ids[2]}
+        self.ops.append(op)
+        self.queries.append(op["qid"])
+        return op
+
+    def round_builder(self):
+        """Circle / Cylinder / Cone / Sphere from a shared centre Point (and axis
+        Vector): irrational vertices, used for the bit-exact invariants only"""
+        r = self.rng
+        P = self.ids(lambda e: e["kind"] == "leaf" and e["t"] == "Point")
+        if not P:
+            return None
+        c = r.choice(P)
+        which = r.choice(["Circle", "Circle", "Cylinder", "Cone", "Sphere"])
+        axis = self.leaf("V", r.choice(list(X.AXES) + [X.rnd_dir(r, 2)]))
+        kw = {"radius": str(F(r.choice([1, 2, 3]), 2)), "n": r.choice([3, 4, 5, 6])}
+        if which == "Sphere":
+            return self.build("Sphere", [c], "ConvexPolyhedron", **kw)
+        return self.build(which, [c, axis], "ConvexPolygon" if which == "Circle" else "ConvexPolyhedron", **kw)
 
     def polygon_group(self):
         r = self.rng
@@ -282,8 +315,15 @@ def generate(rng, k, tier="quick"):
     while len(m.ops) < target_len and guard < 200:
         guard += 1
         r = rng.random()
-        if r < 0.12 and len(m.ent) < 14:
-            before = len(m.ops)
+        if r < 0.03 and len(m.ent) < 12:
+            m.aux_query()
+        elif r < 0.05 and len(m.ent) < 12 and not heavy:
+            bid = m.round_builder()
+            if bid and rng.random() < 0.7:
+                src = [a for a in m.ent[bid].get("from", []) if m.ent.get(a, {}).get("mut")]
+                m.mutate(rng.choice(src))
+                m.query(a=bid)
+        elif r < 0.14 and len(m.ent) < 14:
             bid = m.some_build()
             if bid and rng.random() < 0.5:
                 # interference right after the construction that used the leaf
@@ -384,17 +424,22 @@ class World(object):
             return tname(d)
         raise ValueError(kind)
 
-    def ask(self, q, a, b):
+    def ask(self, q, a, b, c=None):
         oa = self.get(a)
         ob = self.get(b) if b is not None else None
         if oa is None or (b is not None and ob is None):
             return None, False
         fn = _q(q)
+        if c is not None:
+            oc = self.get(c)
+            if oc is None:
+                return None, False
+            return call(fn, oa, ob, oc), True
         r = call(fn, oa, ob) if b is not None else call(fn, oa)
         return r, True
 
-    def versions(self, a, b):
-        return (self.e[a]["ver"], self.e[b]["ver"] if b is not None else None)
+    def versions(self, a, b, c=None):
+        return (self.e[a]["ver"], self.e[b]["ver"] if b is not None else None, self.e[c]["ver"] if c is not None else None)
 
 
 def _ctor(op):
@@ -416,6 +461,15 @@ def _ctor(op):
         return G.Parallelepiped
     if c == "Neg":
         return lambda p: -p
+    rad, n = float(F(op.get("radius", "1"))), op.get("n", 4)
+    if c == "Circle":
+        return lambda ctr, nv: G.Circle(ctr, nv, rad, n)
+    if c == "Cylinder":
+        return lambda ctr, hv: G.Cylinder(ctr, rad, hv, n)
+    if c == "Cone":
+        return lambda ctr, hv: G.Cone(ctr, rad, hv, n)
+    if c == "Sphere":
+        return lambda ctr: G.Sphere(ctr, rad, n1=max(n, 4), n2=2)
     raise ValueError(c)
 
 
@@ -489,8 +543,15 @@ def execute(history, opts=None):
             out = W.apply_structural(op)
             after = _snaps(W)
             changed = [i for i in snaps if snaps[i] != after[i]]
-            if changed:
-                ctx.count("build_changed_world")  # diagnostic only: C14's clause, not C20's
+            for v in changed:
+                # K5: constructing / copying must leave every existing object alone. The
+                # property's anchors name this mechanism for C20 explicitly ("helpers that
+                # translate points copy first", "circle point generation copies the centre
+                # before moving it"): a builder that moves the caller's Point breaks
+                # "composite objects own their data".
+                what = op.get("ctor", kind)
+                role = "argument" if v in op.get("args", []) or v == op.get("i") else "bystander"
+                ctx.vio(step, "K5", "%s/%s/%s" % (what, tname(W.get(v)), role), "build", "%s changed %s (%s)" % (what, v, tname(W.get(v))), {"victim": v, "args": op.get("args")})
             if kind == "BUILD" and not out.startswith("!") and out != "noop":
                 ctx.count("build:" + op["ctor"])
                 if any(W.e.get(a, {}).get("kind") == "leaf" for a in op["args"]):
@@ -541,11 +602,11 @@ def execute(history, opts=None):
                 if src is None:
                     ctx.event(step, kind, "noop")
                     continue
-                q, a, b, keep = src["q"], src["a"], src["b"], None
+                q, a, b, keep, c3 = src["q"], src["a"], src["b"], None, src.get("c")
             else:
                 qops[op.get("qid")] = op
-                q, a, b, keep = op["q"], op["a"], op["b"], op.get("keep")
-            r, ok = W.ask(q, a, b)
+                q, a, b, keep, c3 = op["q"], op["a"], op["b"], op.get("keep"), op.get("c")
+            r, ok = W.ask(q, a, b, c3)
             if not ok:
                 ctx.event(step, kind, "noop")
                 continue
@@ -560,12 +621,12 @@ def execute(history, opts=None):
             ctx.count("K1_checks")
             changed = [i for i in snaps if snaps[i] != after[i]]
             for v in changed:
-                role = "operand_a" if v == a else ("operand_b" if v == b else "bystander")
-                ctx.vio(step, "K1", "%s/%sx%s/%s" % (q, ta, tb, role), q, "query changed %s (%s)" % (v, tname(W.get(v))), {"a": a, "b": b, "victim": v, "result": detail(r)})
+                role = "operand_a" if v == a else ("operand_b" if v == b else ("operand_c" if v == c3 else "bystander"))
+                ctx.vio(step, "K1", "%s/%sx%s/%s" % (q, ta, tb, role), q, "query changed %s (%s)" % (v, tname(W.get(v))), {"a": a, "b": b, "c": c3, "victim": v, "result": detail(r)})
             snaps = after
             # K3: same question, same operand versions -> same answer
-            vers = W.versions(a, b)
-            key = (q, a, b, vers)
+            vers = W.versions(a, b, c3)
+            key = (q, a, b, c3, vers)
             stored = copy.deepcopy(r) if not isinstance(r, Raised) else r
             if key in answers:
                 ctx.count("K3_reasks")
@@ -573,7 +634,7 @@ def execute(history, opts=None):
                     ctx.vio(step, "K3", "reask/%s/%sx%s" % (q, ta, tb), q, "%s->%s" % (disc(answers[key]), disc(r)), {"first": detail(answers[key]), "now": detail(r), "a": a, "b": b})
             else:
                 answers[key] = stored
-            asked.append((step, q, a, b, vers, stored))
+            asked.append((step, q, a, b, vers, stored, c3))
             if keep and not isinstance(r, Raised) and r is not None and not isinstance(r, (bool, int, float)):
                 W.put(keep, copy.deepcopy(r), "result")
                 snaps = _snaps(W)
@@ -581,7 +642,7 @@ def execute(history, opts=None):
             ctx.event(step, kind, "%s(%s,%s)=%s%s" % (q, ta, tb, disc(r), "" if not changed else "#changed"))
         elif kind == "COLD_REPLAY":
             # K3: a world that has never seen a query gives the same answers
-            cur = [x for x in asked if x[2] in W.e and (x[3] is None or x[3] in W.e) and W.versions(x[2], x[3]) == x[4]]
+            cur = [x for x in asked if x[2] in W.e and (x[3] is None or x[3] in W.e) and (x[6] is None or x[6] in W.e) and W.versions(x[2], x[3], x[6]) == x[4]]
             cur = cur[-10:]
             if not cur:
                 ctx.event(step, kind, "nothing-current")
@@ -589,8 +650,8 @@ def execute(history, opts=None):
             C1 = _cold_world(ops, step - 1)
             ctx.count("cold_replays")
             outs = []
-            for (st, q, a, b, vers, hot) in cur:
-                r1, ok = C1.ask(q, a, b)
+            for (st, q, a, b, vers, hot, c3) in cur:
+                r1, ok = C1.ask(q, a, b, c3)
                 if not ok:
                     outs.append("noop")
                     continue
@@ -599,7 +660,7 @@ def execute(history, opts=None):
                 outs.append(disc(r1) + ("" if agree else "#"))
                 if not agree:
                     C2 = _cold_world(ops, step - 1)
-                    r2, _ = C2.ask(q, a, b)
+                    r2, _ = C2.ask(q, a, b, c3)
                     if not same(r1, r2, angle=(q == "angle")):
                         ctx.count("ill_conditioned")
                         continue
